@@ -134,3 +134,27 @@ impl IntoIterator for BitSet<u64> {
         self.iter().copied()
     }
 }
+
+impl<K: VKey> core::iter::FromIterator<K> for BitSet<K> {
+    fn from_iter<I: IntoIterator<Item = K>>(iter: I) -> Self {
+        let mut s = Self::default();
+        for k in iter {
+            s.insert(k);
+        }
+        s
+    }
+}
+impl<K: VKey> Extend<K> for BitSet<K> {
+    fn extend<I: IntoIterator<Item = K>>(&mut self, iter: I) {
+        for k in iter {
+            self.insert(k);
+        }
+    }
+}
+impl<'a, K: VKey + Copy + 'a> Extend<&'a K> for BitSet<K> {
+    fn extend<I: IntoIterator<Item = &'a K>>(&mut self, iter: I) {
+        for k in iter {
+            self.insert(*k);
+        }
+    }
+}
